@@ -7,6 +7,7 @@ import (
 	"fmt"
 	"go/types"
 	"math/big"
+	"os"
 	"sort"
 	"strings"
 
@@ -52,6 +53,9 @@ func (vc *VC) call(st *State, x *ssa.Call) {
 }
 
 func (vc *VC) callCommon(st *State, c *ssa.CallCommon, rt types.Type, site ssa.Instruction) Val {
+	saved := vc.curCall
+	vc.curCall = c
+	defer func() { vc.curCall = saved }()
 	if b, ok := c.Value.(*ssa.Builtin); ok {
 		return vc.builtin(st, b, c, rt)
 	}
@@ -119,6 +123,45 @@ func (vc *VC) pureOpaqueResult(st *State, rt types.Type, name string) Val {
 }
 
 func (vc *VC) opaqueResult(st *State, rt types.Type, what string) Val {
+	if vc.curCall != nil && vc.fn != nil && os.Getenv("GOVC_NO_EFFECTS") == "" {
+		// computed write effects of the callee(s): havoc exactly those components
+		eff := &effectSet{comps: map[string]bool{}}
+		vc.G.effects().callEffects(vc.fn, vc.curCall, eff)
+		if !eff.top {
+			for _, comp := range eff.sorted() {
+				if _, known := vc.compSort[comp]; known {
+					vc.heapHavoc(st, comp)
+					vc.heapTypingAxioms(st, comp)
+				} else {
+					if st.dirty == nil {
+						st.dirty = map[string]bool{}
+					}
+					st.dirty[comp] = true
+					delete(st.heap, comp)
+				}
+			}
+			for comp := range eff.comps {
+				if vc.touched != nil {
+					vc.touched[comp] = true
+				}
+				if strings.HasPrefix(comp, "map:") {
+					vc.clobberMaps("")
+				}
+			}
+			na := vc.fresh("alloc")
+			vc.declare(na, "Int")
+			vc.assume(st, app("<=", st.alloc, na))
+			st.alloc = na
+			vc.assumptions["uncontracted callee "+what+": heap components outside its computed write effect are unchanged (effect analysis, "+fmt.Sprint(len(eff.comps))+" components)"] = true
+			if rt == nil {
+				return Val{K: KUnit}
+			}
+			if tp, ok := rt.(*types.Tuple); ok && tp.Len() == 0 {
+				return Val{K: KUnit}
+			}
+			return vc.freshVal(st, rt, "r."+what)
+		}
+	}
 	vc.havocAll(st)
 	if rt == nil {
 		return Val{K: KUnit}
